@@ -1,0 +1,48 @@
+//go:build verif
+
+package golang
+
+// Contracts for backend option handling (property C20). Comment-only file, read by /verif/engine (govc).
+
+// The action of a table entry may change any setting of the CodeUtils it is given (and the naming style object):
+// assumed, because the entries are function values built by reflection.
+//@ extern (param) action
+//@   modifies cu.packagePrefix, cu.features, cu.namingStyle, cu.doInitialisms, cu.useTemplate, contents(cu.importReplace)
+
+// The option table is built once by package initialisation and never assigned afterwards.
+//@ pure func wfTable() bool { return forall k int :: 0 <= k && k < len(allParams) ==> allParams[k] != nil }
+
+//@ func checkBool(name, value string) (bool, error)
+//@   ensures (value == "" || value == "true") ==> result0 && result1 == nil
+//@   ensures value == "false" ==> !result0 && result1 == nil
+//@   ensures value != "" && value != "true" && value != "false" ==> result1 != nil
+
+//@ pure func invalidCombo(f Features) bool { return (f.ApacheWarning && f.ApacheAdaptor) || (f.WithFieldMask && !f.WithReflection) || (f.SnakeTyleJSONTag && f.LowerCamelCaseJSONTag) || (!f.GenerateJSONTag && f.AlwaysGenerateJSONTag) }
+
+//@ func (cu *CodeUtils) validateOptions() error
+//@   requires cu != nil
+//@   ensures (result != nil) == invalidCombo(cu.features)
+
+//@ func (cu *CodeUtils) UseTemplate(value string) error
+//@   requires cu != nil
+//@   ensures (result == nil) == (value == "default" || cu.alternative[value] != nil)
+//@   ensures result == nil ==> cu.useTemplate == value
+//@   ensures result != nil ==> cu.useTemplate == old(cu.useTemplate)
+//@   modifies cu.useTemplate
+
+//@ func (cu *CodeUtils) SetFeatures(fs Features)
+//@   requires cu != nil
+//@   ensures cu.features == fs
+//@   modifies cu.features
+
+//@ func (cu *CodeUtils) Features() Features
+//@   requires cu != nil
+//@   ensures result == cu.features
+
+//@ func (cu *CodeUtils) HandleOptions(args []string) error
+//@   requires cu != nil && wfTable()
+//@   ensures result == nil ==> (cu.useTemplate == "slim" ==> !cu.features.GenDeepEqual)
+//@   ensures result == nil ==> !invalidCombo(cu.features)
+//@   modifies cu.packagePrefix, cu.features, cu.namingStyle, cu.doInitialisms, cu.useTemplate, contents(cu.importReplace)
+//@   loop 1.1 invariant forall k int :: 0 <= k && k < $i ==> !prefixof(allParams[k].name, name)
+//@   site call:p.action assert forall k int :: 0 <= k && k < $i@1.1 ==> !prefixof(allParams[k].name, name)
